@@ -26,6 +26,26 @@ def total : Shape → Nat
   | .flat s => sizeOf s
   | .nested ss => (ss.map sizeOf).sum
 
+/-- Python's `()` is the 0-d shape, not a nested shape: a block shape has at least one block -/
+def Shape.Valid : Shape → Prop
+  | .nested [] => False
+  | _ => True
+
+instance : DecidablePred (Shape.Valid) := fun sh => by
+  cases sh with
+  | flat s => exact isTrue trivial
+  | nested ss => cases ss with
+    | nil => exact isFalse (fun h => h)
+    | cons _ _ => exact isTrue trivial
+
+theorem unravel_nested_of_ne (v : List α) (ss : List (List Nat)) (hne : ss ≠ []) :
+    unravel v (.nested ss) =
+      (mapO (fun (p : List α × List Nat) => reshape p.1 p.2)
+        (List.zip (splitIdx 0 (cumsumFrom 0 (ss.map sizeOf)).dropLast v) ss)).map Val.blk := by
+  cases ss with
+  | nil => exact absurd rfl hne
+  | cons _ _ => rfl
+
 theorem cumsumFrom_ne_nil (acc : Nat) {l : List Nat} (h : l ≠ []) : cumsumFrom acc l ≠ [] := by
   cases l with
   | nil => exact absurd rfl h
@@ -147,7 +167,8 @@ theorem sizes_eq_lengths (bs : List (Arr α)) (h : ∀ b ∈ bs, b.WF) :
     rw [ih (fun x hx => h x (by simp [hx]))]
 
 /-- `_unravel(_ravel(x), x.shape) = x` -/
-theorem unravel_ravel (x : Val α) (h : x.WF) : unravel (ravel x) (shapeOf x) = some x := by
+theorem unravel_ravel (x : Val α) (h : x.WF) (hv : (shapeOf x).Valid) :
+    unravel (ravel x) (shapeOf x) = some x := by
   cases x with
   | arr a =>
     unfold Val.WF Arr.WF at h
@@ -155,19 +176,20 @@ theorem unravel_ravel (x : Val α) (h : x.WF) : unravel (ravel x) (shapeOf x) = 
   | blk bs =>
     unfold Val.WF at h
     cases hbs : bs with
-    | nil => simp [unravel, ravel, shapeOf, cumsumFrom, splitIdx, mapO]
+    | nil => subst hbs; exact absurd hv (by simp [shapeOf, Shape.Valid])
     | cons b rest =>
       rw [← hbs]
       have hne : bs.map Arr.shape ≠ [] := by simp [hbs]
       have hsz := sizes_eq_lengths bs h
       have hlen : ((bs.map Arr.data).flatten).length = ((bs.map Arr.shape).map sizeOf).sum := by
         rw [hsz, List.length_flatten]
-      simp only [unravel, ravel, shapeOf]
-      rw [splitIdx_cumsum _ 0 _ (by simpa using hne) hlen, hsz, chunks_flatten, mapO_zip_reshape bs h]
+      simp only [ravel, shapeOf]
+      rw [unravel_nested_of_ne _ _ hne, splitIdx_cumsum _ 0 _ (by simpa using hne) hlen, hsz, chunks_flatten,
+        mapO_zip_reshape bs h]
       rfl
 
 /-- `_ravel(_unravel(v, shape)) = v` and the result has the requested shape -/
-theorem ravel_unravel (v : List α) (sh : Shape) (h : v.length = total sh) :
+theorem ravel_unravel (v : List α) (sh : Shape) (hvalid : sh.Valid) (h : v.length = total sh) :
     ∃ x, unravel v sh = some x ∧ ravel x = v ∧ shapeOf x = sh ∧ x.WF := by
   cases sh with
   | flat s =>
@@ -177,13 +199,10 @@ theorem ravel_unravel (v : List α) (sh : Shape) (h : v.length = total sh) :
   | nested ss =>
     simp only [total] at h
     cases hss : ss with
-    | nil =>
-      subst hss
-      have : v = [] := by simpa using h
-      subst this
-      exact ⟨.blk [], by simp [unravel, cumsumFrom, splitIdx, mapO], rfl, rfl, by simp [Val.WF]⟩
+    | nil => subst hss; exact absurd hvalid (by simp [Shape.Valid])
     | cons s0 rest =>
       rw [← hss]
+      have hne0 : ss ≠ [] := by simp [hss]
       have hne : ss.map sizeOf ≠ [] := by simp [hss]
       have hch := splitIdx_cumsum (ss.map sizeOf) 0 v hne h
       -- the pieces, reshaped
@@ -214,8 +233,7 @@ theorem ravel_unravel (v : List α) (sh : Shape) (h : v.length = total sh) :
         · intro i h1 h2
           simp [bs]
       refine ⟨.blk bs, ?_, ?_, ?_, ?_⟩
-      · simp only [unravel]
-        rw [hch, hmap]; rfl
+      · rw [unravel_nested_of_ne _ _ hne0, hch, hmap]; rfl
       · simp only [ravel, hdata]
         exact flatten_chunks _ v h
       · simp [shapeOf, hshape]
@@ -358,16 +376,17 @@ def SameForm (c c0 : Container α) : Prop :=
   | .cplx _, .cplx _ => True
   | _, _ => False
 
-theorem result_x0flat (c c0 : Container α) (hwf : c.WF) (hf : SameForm c c0) :
-    result c0 (x0flat c) = some c := by
+theorem result_x0flat (c c0 : Container α) (hwf : c.WF) (hf : SameForm c c0)
+    (hv : (workShape c0).Valid) : result c0 (x0flat c) = some c := by
   obtain ⟨hs, hk⟩ := hf
+  rw [← hs] at hv
   cases c with
   | real x =>
     cases c0 with
     | real x0 =>
       simp only [result, x0flat, prepare] at *
       rw [← hs]
-      simp [workShape, prepare, unravel_ravel x hwf]
+      simp [workShape, prepare, unravel_ravel x hwf (by simpa [workShape, prepare] using hv)]
     | cplx _ => exact absurd hk (by simp)
   | cplx x =>
     cases c0 with
@@ -376,7 +395,8 @@ theorem result_x0flat (c c0 : Container α) (hwf : c.WF) (hf : SameForm c c0) :
       simp only [result, x0flat, prepare] at *
       rw [← hs]
       have := (splitVal_wf x hwf).1
-      simp [workShape, prepare, unravel_ravel (splitVal x) this, joinVal_splitVal x hwf]
+      simp [workShape, prepare, unravel_ravel (splitVal x) this (by simpa [workShape, prepare] using hv),
+        joinVal_splitVal x hwf]
 
 end Scico.Wrap
 
@@ -418,10 +438,10 @@ theorem splitShaped_of_shape (r : Val α) (x0 : Val (Cx α)) (hwf : r.WF)
 
 /-- what scipy returns is mapped to a well-formed container of the form of `x0` whose
     flattening is exactly scipy's vector -/
-theorem x0flat_result (c0 : Container α) (hwf0 : c0.WF) (v : List α)
+theorem x0flat_result (c0 : Container α) (hwf0 : c0.WF) (hvalid : (workShape c0).Valid) (v : List α)
     (hv : v.length = total (workShape c0)) :
     ∃ c, result c0 v = some c ∧ x0flat c = v ∧ c.WF ∧ SameForm c c0 := by
-  obtain ⟨x, hx, hr, hsh, hxwf⟩ := ravel_unravel v (workShape c0) hv
+  obtain ⟨x, hx, hr, hsh, hxwf⟩ := ravel_unravel v (workShape c0) hvalid hv
   cases c0 with
   | real x0 =>
     refine ⟨.real x, by simp [result, hx], by simpa [x0flat, prepare] using hr, hxwf, ?_, trivial⟩
